@@ -27,7 +27,7 @@ func newE2E(repo, dir string) (*e2eEnv, error) {
 		return nil, err
 	}
 	bin := filepath.Join(dir, "goverter-bin")
-	cmd := exec.Command("go", "build", "-o", bin, "./cmd/goverter")
+	cmd := exec.Command("go", "build", "-buildvcs=false", "-o", bin, "./cmd/goverter")
 	cmd.Dir = repo
 	cmd.Env = append(os.Environ(), "GOFLAGS=-mod=mod", "GOPROXY=off", "GOSUMDB=off", "GOTOOLCHAIN=local")
 	if b, err := cmd.CombinedOutput(); err != nil {
